@@ -12,7 +12,7 @@ theorem splitOn_go_no_sep (c : Nat) (a acc : Bytes) (h : ∀ x ∈ a, x ≠ c) :
   | nil => simp [splitOn.go]
   | cons x xs ih =>
     have hx : (x == c) = false := by simpa using h x (by simp)
-    simp only [splitOn.go, hx]
+    simp only [splitOn.go, hx, Bool.false_eq_true, if_false]
     rw [ih (x :: acc) (fun y hy => h y (by simp [hy]))]
     simp
 
@@ -22,7 +22,7 @@ theorem splitOn_go_head (c : Nat) (a rest acc : Bytes) (h : ∀ x ∈ a, x ≠ c
   | nil => simp [splitOn.go]
   | cons x xs ih =>
     have hx : (x == c) = false := by simpa using h x (by simp)
-    simp only [List.cons_append, splitOn.go, hx]
+    simp only [List.cons_append, splitOn.go, hx, Bool.false_eq_true, if_false]
     rw [ih (x :: acc) (fun y hy => h y (by simp [hy]))]
     simp
 
@@ -123,7 +123,7 @@ theorem scan_render (k v t : Bytes) (hk0 : k ≠ []) (hk : ∀ x ∈ k, plainByt
 theorem encode_plain (bs : Bytes) : ∀ x ∈ encode bs, plainByte x := by
   have hc : ∀ n, plainByte (char64 n) := by
     intro n; unfold plainByte char64; (repeat' split) <;> omega
-  have hp : plainByte PAD := by decide
+  have hp : plainByte PAD := by unfold plainByte PAD; omega
   fun_induction encode bs <;> simp_all
 
 end C20
